@@ -163,15 +163,17 @@ def check_identifiers(ctx, num=2):
                     bad += 1
                 ctx.ob(num, "K11", "no sort / min / max key involves an identifier", ok, f, n, detail=f"{norm.U(n)[:120]}")
             else:
+                # whole-element comparison: a problem only if the elements carry identifiers (ties would be broken by them)
                 arg = n.args[0] if n.args else (n.func.value if isinstance(n.func, ast.Attribute) else None)
-                t = norm.U(arg) if arg is not None else ""
-                ok = t.endswith("_ALGOS.keys()") or t.endswith("_ALGOS")
-                if not ok and isinstance(arg, (ast.GeneratorExp, ast.ListComp)):
-                    ok = True
+                lst = norm.U(arg) if arg is not None else ""
+                entries = [c.args[0] for c in own_nodes(f.node) if isinstance(c, ast.Call) and isinstance(c.func, ast.Attribute) and c.func.attr == "append"
+                           and norm.U(c.func.value) == lst and c.args]
+                idk = [x for e in entries for x in ast.walk(e) if isinstance(x, ast.Attribute) and x.attr in IDENT_ATTRS]
+                ok = not idk
                 if not ok:
                     bad += 1
-                ctx.ob(num, "K11", "a sort without a key compares whole elements — allowed only for the registry's scheduler names; everything else must name the component it orders by "
-                       "(ties would otherwise be broken by identifiers or object addresses)", ok, f, n, detail=f"{norm.U(n)[:120]} in {f.qual}")
+                ctx.ob(num, "K11", "a sort without a key compares whole elements: its elements must not carry identifiers (random uuids, container numbers), which would break ties",
+                       ok, f, n, detail=f"{norm.U(n)[:120]} in {f.qual}; identifier components of the entries: {[norm.U(x) for x in idk]}")
     ctx.count_min("sort/min/max sites", n_sorts, 2)
     # uses of container_id: identifier contexts only
     for f in _funcs(P):
